@@ -39,6 +39,7 @@ TYPEDEFS = {'size_t': 'unsigned long', 'uint8_t': 'unsigned char', 'uint16_t': '
             'uint32_t': 'unsigned int', 'uint64_t': 'unsigned long', 'int8_t': 'signed char',
             'cbor_data': 'const unsigned char *', 'cbor_mutable_data': 'unsigned char *',
             'uintmax_t': 'unsigned long'}
+ENUM_TYPEDEFS = set()    # typedef names of (anonymous) enums, filled by Translator.index_tu: `typedef enum {..} cbor_int_width;`
 
 
 def ctype(t):
@@ -49,7 +50,8 @@ def ctype(t):
     q = re.sub(r'\b(const|volatile|restrict)\b', '', q).strip()
     q = re.sub(r'\s+', ' ', q)
     if q in INT_T: return INT_T[q]
-    if q.startswith('enum '): return 'u32'  # enums without negative enumerators are unsigned int under clang/gcc
+    if q.startswith('enum ') or q in ENUM_TYPEDEFS: return 'u32'  # enums without negative enumerators are unsigned int under clang/gcc
+    if q in ('cbor_item_t *', 'struct cbor_item_t *'): return 'sptr:cbor_item_t'
     if q in ('unsigned char *', 'unsigned char *restrict'): return 'ptr'
     m = re.fullmatch(r'(unsigned (?:char|short|int|long)|uint(?:8|16|32|64)_t|size_t) \*', q)
     if m: return 'sref:' + ctype(m.group(1))
@@ -162,6 +164,8 @@ class Translator:
         self.externs = {}    # name -> (ret ctype)
         self.out = []        # Lean text chunks of the current file
         self.log = []
+        self.item_fields = None   # flat model of cbor_item_t: [(flat name, ctype, C access path)]  (build_item_model)
+        self.item_paths = {}      # C access path (tuple of member names) -> (flat name, ctype, union member or None)
 
     # ---------------------------------------------------------------- declarations from a TU
     def index_tu(self, tu):
@@ -177,6 +181,10 @@ class Translator:
                         ins = [x for x in c.get('inner', []) if not x['kind'].endswith('Comment')]
                         v = self.const_int(ins[0]) if ins else v + 1
                         self.enums[c['name']] = v
+            elif k == 'TypedefDecl':
+                und = d.get('inner', [{}])[0]
+                while und.get('kind') == 'ElaboratedType' and und.get('inner'): und = und['inner'][0]
+                if und.get('kind') == 'EnumType': ENUM_TYPEDEFS.add(d['name'])
             elif k == 'FunctionDecl' and any(c.get('kind') == 'CompoundStmt' for c in d.get('inner', [])):
                 fns[d['name']] = d
             elif k == 'VarDecl' and d.get('inner'):
@@ -209,6 +217,185 @@ class Translator:
         if e['kind'] in ('ImplicitCastExpr', 'ParenExpr', 'CStyleCastExpr', 'ConstantExpr') and e.get('inner'):
             return self.const_int(e['inner'][0])
         raise Unsupported('const ' + e['kind'])
+
+    # ---------------------------------------------------------------- cbor_item_t as a flat record (ItemRec)
+    # union cbor_item_metadata: member -> (prefix of the flat field names, enumerators of cbor_type that select the member).
+    # Which tag selects which member is libcbor's representation invariant (every constructor initialises exactly that member
+    # together with .type); it is not derivable from a single accessor and is therefore fixed here.
+    ITEM_MEMBERS = {
+        'int_metadata': ('int', ['CBOR_TYPE_UINT', 'CBOR_TYPE_NEGINT']),
+        'bytestring_metadata': ('bs', ['CBOR_TYPE_BYTESTRING']),
+        'string_metadata': ('str', ['CBOR_TYPE_STRING']),
+        'array_metadata': ('arr', ['CBOR_TYPE_ARRAY']),
+        'map_metadata': ('map', ['CBOR_TYPE_MAP']),
+        'tag_metadata': ('tag', ['CBOR_TYPE_TAG']),
+        'float_ctrl_metadata': ('float', ['CBOR_TYPE_FLOAT_CTRL']),
+    }
+    ITEM_FLAT_OVERRIDE = {('float_ctrl_metadata', 'ctrl'): 'ctrl', ('string_metadata', 'codepoint_count'): 'str_codepoints',
+                          ('tag_metadata', 'tagged_item'): 'tagged_item'}
+    ITEM_LEAN_T = dict(LEAN_T, bytes='Array UInt8', handle='Nat')
+
+    def build_item_model(self):
+        """flatten `struct cbor_item_t` (as declared in the TU) into the fields of the Lean structure ItemRec"""
+        if 'cbor_item_t' not in self.structs: raise Unsupported('struct cbor_item_t is not declared')
+        scal, meta, data = [], [], []
+        for f, ft in self.structs['cbor_item_t']:
+            q = ft.get('qualType', '')
+            if f == 'metadata':
+                u = ctype(ft)
+                if not u.startswith('union:') or u[6:] not in self.structs: raise Unsupported('cbor_item_t.metadata is not a known union')
+                for m, mt in self.structs[u[6:]]:
+                    if m not in self.ITEM_MEMBERS: continue            # unknown union member: not modelled, any access is Unsupported
+                    st_ = ctype(mt)
+                    if not st_.startswith('struct:') or st_[7:] not in self.structs: raise Unsupported('union member ' + m)
+                    for g, gt in self.structs[st_[7:]]:
+                        flat = self.ITEM_FLAT_OVERRIDE.get((m, g), '%s_%s' % (self.ITEM_MEMBERS[m][0], g))
+                        try:
+                            t = ctype(gt)
+                        except Unsupported:
+                            continue
+                        if t == 'sptr:cbor_item_t': t = 'handle'       # abstract handle; never dereferenced by translated code
+                        if t not in self.ITEM_LEAN_T: continue
+                        meta.append((flat, t, ('metadata', m, g), m))
+            elif f == 'data':
+                if ctype(ft) != 'ptr': raise Unsupported('cbor_item_t.data is not unsigned char*')
+                data.append((f, 'bytes', (f,), None))
+            else:
+                t = ctype(ft)
+                if t not in BITS: raise Unsupported('cbor_item_t.%s : %s' % (f, q))
+                scal.append((f, t, (f,), None))
+        scal.sort(key=lambda x: {'type': 0, 'refcount': 1}.get(x[0], 2))
+        self.item_fields = scal + meta + data
+        names = [x[0] for x in self.item_fields]
+        if len(set(names)) != len(names): raise Unsupported('flat item field names collide')
+        self.item_paths = {x[2]: (x[0], x[1], x[3]) for x in self.item_fields}
+        for m, (_, tags) in self.ITEM_MEMBERS.items():
+            for tg in tags:
+                if tg not in self.enums: raise Unsupported('enumerator %s is not declared' % tg)
+
+    def item_decl(self):
+        """Lean text: structure ItemRec + the union-member selector used by the side condition on writes to `.type`"""
+        L = ['/-- `struct cbor_item_t` (src/cbor/data.h) as a flat record.  The members of `union cbor_item_metadata` overlap in C; here every member has',
+             'its own fields, and every access to a member carries (in `.ok`) the side condition that `type` selects that member.  `data` is the',
+             'byte sequence `item->data` points to (multi-byte integers are stored in host byte order: little-endian). -/',
+             'structure ItemRec where']
+        for flat, t, path, m in self.item_fields:
+            L.append('  %s : %s' % (flat, self.ITEM_LEAN_T[t]))
+        L.append('deriving Repr, DecidableEq, Inhabited\n')
+        L.append('/-- representative type tag of the union member selected by type tag `t` (two tags select the same member iff `memberOf` agrees) -/')
+        e = 't'
+        for m, (_, tags) in self.ITEM_MEMBERS.items():
+            rep0 = self.enums[tags[0]]
+            for tg in tags[1:]:
+                e = '(if %s == (%d : UInt32) then (%d : UInt32) else %s)' % ('t', self.enums[tg], rep0, e)
+        L.append('def ItemRec.memberOf (t : UInt32) : UInt32 := %s\n' % e)
+        L.append('/-- result type of an accessor the translator could NOT translate (construct outside its subset): nothing can be proved about it,')
+        L.append('its `.ok` is `false`, and every typing check / theorem / correspondence line that mentions it fails -/')
+        L.append('structure Untranslated where\n  why : String\nderiving Repr\n')
+        return '\n'.join(L)
+
+    def stub(self, decl, why):
+        """placeholder for an accessor that raised Unsupported: same parameters, result `Untranslated`, `.ok = false`"""
+        ps = []
+        for p_ in decl.get('inner', []):
+            if p_['kind'] != 'ParmVarDecl': continue
+            t = ctype(p_['type'])
+            if t == 'sptr:cbor_item_t': ps.append('(%s : ItemRec)' % p_['name'])
+            elif t in LEAN_T and t != 'unit': ps.append('(%s : %s)' % (p_['name'], LEAN_T[t]))
+            else: raise Unsupported('parameter type ' + t)
+        P = ' '.join(ps)
+        why = re.sub(r'[^\w .:,>*()/-]', '?', why)
+        return ('/-- NOT TRANSLATED — outside the translator\'s subset: %s -/\ndef %s %s : Untranslated := ⟨"%s"⟩\n\ndef %s.ok %s : Bool := false\n'
+                % (why, decl['name'], P, why, decl['name'], P))
+
+    def item_path(self, e, st, fn):
+        """e: MemberExpr.  If it denotes `p->a.b.c` with p a pointer to cbor_item_t that aliases an item parameter, return
+        (item key, path tuple); None if the base is not an item pointer (the caller falls back to the plain struct rules)."""
+        names = []; cur = e
+        while True:
+            if cur['kind'] != 'MemberExpr': return None
+            names.append(cur['name']); arrow = cur.get('isArrow'); cur = cur['inner'][0]
+            if arrow: break
+            while cur['kind'] == 'ParenExpr': cur = cur['inner'][0]
+        try:
+            if ctype(cur['type']) != 'sptr:cbor_item_t': return None
+        except Unsupported:
+            return None
+        pv = self.expr(cur, st, fn)
+        if pv.t != 'sptr:cbor_item_t' or pv.lean not in st.structs or st.structs[pv.lean].get('__type') != '__item':
+            raise Unsupported('item pointer that is not a parameter')
+        return pv.lean, tuple(reversed(names))
+
+    def item_field(self, key, path, st, write):
+        """flat field of an access path + the side condition that the type tag selects the union member accessed"""
+        if path not in self.item_paths: raise Unsupported('access to item member ' + '.'.join(path))
+        flat, t, member = self.item_paths[path]
+        if t == 'handle': raise Unsupported('access to item pointer member ' + '.'.join(path))
+        if member is not None:
+            ty = st.structs[key]['type'].lean
+            tags = [self.enums[x] for x in self.ITEM_MEMBERS[member][1]]
+            c = ' || '.join('%s == (%d : UInt32)' % (ty, v) for v in tags)
+            st.obl.append('(%s)' % c)
+        return flat, t
+
+    def item_read(self, key, path, st):
+        if path == ('data',):
+            v = V(key, 'ptr', base=None, off='0'); v.item = key
+            return v
+        flat, t = self.item_field(key, path, st, False)
+        return st.structs[key][flat]
+
+    def item_write(self, key, path, v, st, fn):
+        if path == ('data',): raise Unsupported('store to item->data (the pointer itself)')
+        flat, t = self.item_field(key, path, st, True)
+        v = self.conv(v, t, st)
+        if path == ('type',):
+            # changing the tag to one that selects another union member would make that member's (stale, in C: overlapping)
+            # fields readable: demand that old and new tag select the same member
+            st.obl.append('(ItemRec.memberOf %s == ItemRec.memberOf %s)' % (v.lean, st.structs[key]['type'].lean))
+        nn = fn.gensym(key + '_' + flat); st.pending.append((nn, v.lean))
+        st.structs[key][flat] = V(nn, t)
+        fn.stored.add(key)
+
+    def item_lit(self, key, st):
+        s_ = st.structs[key]; base = s_['__base'].lean
+        ch = ['%s := %s' % (flat, s_[flat].lean) for flat, t, _, _ in self.item_fields if s_[flat].lean != '%s.%s' % (base, flat)]
+        if not ch: return base
+        return '{ %s with %s }' % (base, ', '.join(ch))
+
+    WIDE = {'u16': 2, 'u32': 4, 'u64': 8}
+
+    def wide_read(self, p, st):
+        """`*(uintN_t*)q` with q a byte pointer: the N/8 bytes at q, assembled in host (little-endian) order"""
+        t = p.t[5:]; n = self.WIDE[t]
+        arr = self.bytes_of(p, st)
+        st.obl.append(self.wide_bound(p, n, arr))
+        return V('(C.loadLE%d %s %s)' % (8 * n, arr, paren(p.off)), t)
+
+    def wide_store(self, p, v, st, fn):
+        t = p.t[5:]; n = self.WIDE[t]
+        v = self.conv(v, t, st)
+        arr = self.bytes_of(p, st)
+        st.obl.append(self.wide_bound(p, n, arr))
+        self.set_bytes(p, '(C.storeLE%d %s %s %s)' % (8 * n, arr, paren(p.off), v.lean), st, fn)
+
+    def wide_bound(self, p, n, arr):
+        # only `item->data` itself (offset 0) is known to be suitably aligned for uint64_t: the constructors let it point just behind the
+        # malloc'ed item header; a fixed-width access through any other byte pointer is outside the subset
+        if getattr(p, 'item', None) is None or p.off != '0':
+            raise Unsupported('fixed-width access through a reinterpreted byte pointer other than item->data (alignment unknown)')
+        return 'decide (%d ≤ %s.size)' % (n, arr)
+
+    def bytes_of(self, p, st):
+        if getattr(p, 'item', None) is not None: return st.structs[p.item]['data'].lean
+        return st.bufs.get(p.base, p.base)
+
+    def set_bytes(self, p, e, st, fn):
+        if getattr(p, 'item', None) is not None:
+            nn = fn.gensym(p.item + '_data'); st.pending.append((nn, e))
+            st.structs[p.item]['data'] = V(nn, 'bytes'); fn.stored.add(p.item); return
+        if p.base not in st.bufs: raise Unsupported('store through read-only pointer')
+        nb = fn.gensym(p.base); st.pending.append((nb, e)); st.bufs[p.base] = nb
 
     # ---------------------------------------------------------------- conversions
     def conv(self, v, to, st):
@@ -288,7 +475,23 @@ class Translator:
             if ck in ('IntegralCast', 'IntegralToBoolean', 'BooleanToSignedIntegral'):
                 return self.conv(self.expr(sub, st, fn), ctype(e['type']), st)
             if ck == 'BitCast':
-                return self.expr(sub, st, fn)
+                v = self.expr(sub, st, fn)
+                if v.t in ('ptr',) or v.t.startswith('wptr:'):
+                    # reinterpretation of a byte pointer: only to another byte pointer (no change) or to uint16/32/64_t*
+                    # (fixed-width access in host byte order, see wide_read / wide_store); anything else is outside the subset
+                    try:
+                        tt = ctype(e['type'])
+                    except Unsupported:
+                        tt = None
+                    if tt == 'ptr' or tt == 'voidp':
+                        if v.t != 'ptr': raise Unsupported('cast of a wide pointer back to a byte pointer')
+                        return v
+                    if tt is not None and tt.startswith('sref:') and tt[5:] in self.WIDE and v.t == 'ptr':
+                        w = V(v.lean, 'wptr:' + tt[5:], base=v.base, off=v.off)
+                        if getattr(v, 'item', None) is not None: w.item = v.item
+                        return w
+                    raise Unsupported('pointer cast to ' + e['type'].get('qualType', '?'))
+                return v
             if ck == 'FloatingCast':
                 v = self.expr(sub, st, fn)
                 # only float -> double promotion for isnan() is tolerated (argument of C.isNaN keeps its width)
@@ -311,6 +514,8 @@ class Translator:
                 return g
             raise Unsupported('ref ' + n)
         if k == 'MemberExpr':
+            ip = self.item_path(e, st, fn)
+            if ip is not None: return self.item_read(ip[0], ip[1], st)
             b = self.strip(e['inner'][0])
             if b['kind'] == 'DeclRefExpr':
                 bn = b['referencedDecl']['name']
@@ -332,6 +537,7 @@ class Translator:
             if op == '*':
                 p = self.expr(sub, st, fn)
                 if p.t.startswith('sref:'): return st.vars[p.lean]
+                if p.t.startswith('wptr:'): return self.wide_read(p, st)
                 if p.t == 'tableelt':
                     # `*(T + i)` on a constant table T is, by definition of the subscript operator (C11 6.5.2.1p2: "E1[E2] is
                     # identical to (*((E1)+(E2)))"), the same expression as `T[i]`: emit exactly what ArraySubscriptExpr emits
@@ -436,11 +642,12 @@ class Translator:
         if p.t != 'ptr': raise Unsupported('pointer arithmetic on ' + p.t)
         idx = self.nat_of(i, st)
         if idx == '0': return p
+        if getattr(p, 'item', None) is not None: raise Unsupported('pointer arithmetic on item->data')
         return V(p.lean, 'ptr', base=p.base, off='(%s + %s)' % (p.off, idx) if p.off != '0' else idx)
 
     def read(self, p, st):
         if p.t != 'ptr': raise Unsupported('dereference of ' + p.t)
-        cur = st.bufs.get(p.base, p.base)
+        cur = self.bytes_of(p, st)
         st.obl.append('decide (%s < %s.size)' % (p.off, cur))
         return V('(%s.getD %s 0)' % (cur, paren(p.off)), 'u8')
 
@@ -487,7 +694,22 @@ class Translator:
         if op in ('&&', '||'):
             a = self.cond(e['inner'][0], st, fn)
             n0 = len(st.obl)
+            snap = (dict(st.bufs), len(st.events), {k2: dict(v2) for k2, v2 in st.structs.items()}, dict(st.vars))
             b = self.cond(e['inner'][1], st, fn)
+            if a not in ('true', 'false'):
+                # the right operand is evaluated only for some values of the left one: a store in it is conditional.  Stores into an
+                # item record are merged (`if <rhs evaluated> then <record after> else <record before>`); any other effect is outside the subset
+                changed = [k2 for k2, v2 in snap[2].items() if any(st.structs[k2][f].lean != v2[f].lean for f in v2 if f != '__type')]
+                if st.bufs != snap[0] or len(st.events) != snap[1] or any(st.vars[k2].lean != v2.lean for k2, v2 in snap[3].items()) or \
+                        any(snap[2][k2]['__type'] != '__item' for k2 in changed):
+                    raise Unsupported('short-circuit operand with side effects')
+                for k2 in changed:
+                    before = St(); before.structs = {k2: snap[2][k2]}
+                    old_lit = self.item_lit(k2, before); new_lit = self.item_lit(k2, st)
+                    nn = fn.gensym(k2)
+                    st.pending.append((nn, 'if %s then %s else %s' % (a if op == '&&' else '(!%s)' % a, new_lit, old_lit)))
+                    st.structs[k2]['__base'] = V(nn, 'rec')
+                    for flat, t, _, _ in self.item_fields: st.structs[k2][flat] = V('%s.%s' % (nn, flat), t)
             if (op == '&&' and a == 'true') or (op == '||' and a == 'false'):
                 return V(b, 'i32b')          # rhs always evaluated: its obligations stay unguarded
             if (op == '&&' and a == 'false') or (op == '||' and a == 'true'):
@@ -595,6 +817,7 @@ class Translator:
             avs = []
             for a in args:
                 v = self.expr(a, st, fn)
+                if getattr(v, 'item', None) is not None or v.t.startswith(('wptr:', 'sptr:')): raise Unsupported('item passed to external function')
                 avs += [st.bufs.get(v.base, v.base), v.off] if v.t == 'ptr' else [v.lean]
             st.obl.append('(Ext.%s.ok %s)' % (name, ' '.join(paren(x) for x in avs)))
             return V('(Ext.%s %s)' % (name, ' '.join(paren(x) for x in avs)), self.externs[name])
@@ -605,9 +828,14 @@ class Translator:
         for a, (pn, pt) in zip(args, sig['params']):
             v = self.expr(a, st, fn)
             if pt == 'ptr':
-                if v.t != 'ptr': raise Unsupported('pointer argument')
+                if v.t != 'ptr' or getattr(v, 'item', None) is not None: raise Unsupported('pointer argument')
                 largs.append(st.bufs.get(v.base, v.base)); largs.append(v.off)
                 if sig['bufparam'] == pn: post.append(('buf', v.base))
+            elif pt == 'item':
+                if v.t != 'sptr:cbor_item_t' or v.lean not in st.structs or st.structs[v.lean].get('__type') != '__item':
+                    raise Unsupported('item argument that is not an item parameter')
+                largs.append(self.item_lit(v.lean, st))
+                if pn in sig['stored']: post.append(('item', v.lean))
             elif pt.startswith('sptr:'):
                 sn = v.lean if v.t == 'sptr:local' else (v.lean if v.t.startswith('sptr:') else None)
                 if sn is None or sn not in st.structs: raise Unsupported('struct pointer argument')
@@ -630,6 +858,7 @@ class Translator:
         n = len(comps); bi = si = ri = 0
         bufs = [x[1] for x in post if x[0] == 'buf']; strs = [x[1] for x in post if x[0] == 'struct']
         srefs = [x[1] for x in post if x[0] == 'sref']
+        items = [x[1] for x in post if x[0] == 'item']; ii = 0
         for i, c in enumerate(comps):
             p = proj(r, i, n)
             if c[0] == 'ret': retv = V(p, c[1])
@@ -643,12 +872,20 @@ class Translator:
             elif c[0] == 'sref':
                 tgt = srefs[ri]; ri += 1
                 nn = fn.gensym(tgt); st.pending.append((nn, p)); st.vars[tgt] = V(nn, st.vars[tgt].t)
+            elif c[0] == 'item':
+                # the callee stored into the item: from here on every field is a projection of the record it returned
+                tgt = items[ii]; ii += 1
+                nn = fn.gensym(tgt); st.pending.append((nn, p))
+                st.structs[tgt]['__base'] = V(nn, 'rec')
+                for flat, t, _, _ in self.item_fields: st.structs[tgt][flat] = V('%s.%s' % (nn, flat), t)
+                fn.stored.add(tgt)
             elif c[0] == 'events':
                 st.events.append('SPLICE:' + p)
         return retv
 
     def struct_lit(self, n, st):
         s = st.structs[n]
+        if s['__type'] == '__item': return self.item_lit(n, st)
         return '{ %s : %s }' % (', '.join('%s := %s' % (f, s[f].lean) for f, _ in self.structs[s['__type']]),
                                 lean_struct(s['__type']))
 
@@ -669,10 +906,14 @@ class Translator:
             n = t['referencedDecl']['name']
             if n not in st.vars: raise Unsupported('assignment to ' + n)
             ty = st.vars[n].t
-            if ty == 'ptr': st.vars[n] = v; return
+            if ty == 'ptr' or ty.startswith('wptr:') or ty == 'sptr:cbor_item_t':
+                if v.t != ty: raise Unsupported('pointer assignment %s := %s' % (ty, v.t))
+                st.vars[n] = v; return
             v = self.conv(v, ty, st)
             nn = fn.gensym(n); st.pending.append((nn, v.lean)); st.vars[n] = V(nn, ty); return
         if t['kind'] == 'MemberExpr':
+            ip = self.item_path(t, st, fn)
+            if ip is not None: return self.item_write(ip[0], ip[1], v, st, fn)
             b = self.strip(t['inner'][0])
             if b['kind'] != 'DeclRefExpr': raise Unsupported('assignment to nested member')
             n = b['referencedDecl']['name']
@@ -699,16 +940,16 @@ class Translator:
                     st.structs[p.lean][f] = V(nn, v.base[f].t)
                 return
             if p.t == 'ptr': return self.store(p, v, st, fn)
+            if p.t.startswith('wptr:'): return self.wide_store(p, v, st, fn)
         if t['kind'] == 'DeclRefExpr' or True:
             raise Unsupported('assignment target ' + t['kind'])
 
     def store(self, p, v, st, fn):
-        if p.base not in st.bufs: raise Unsupported('store through read-only pointer')
-        cur = st.bufs[p.base]
+        if getattr(p, 'item', None) is None and p.base not in st.bufs: raise Unsupported('store through read-only pointer')
+        cur = self.bytes_of(p, st)
         st.obl.append('decide (%s < %s.size)' % (p.off, cur))
         v = self.conv(v, 'u8', st)
-        nb = fn.gensym(p.base); st.pending.append((nb, '%s.setIfInBounds %s %s' % (cur, paren(p.off), v.lean)))
-        st.bufs[p.base] = nb
+        self.set_bytes(p, '%s.setIfInBounds %s %s' % (cur, paren(p.off), v.lean), st, fn)
 
     def stmt(self, s, st, fn, k):
         kind = s['kind']
@@ -744,6 +985,13 @@ class Translator:
                 elif t == 'ptr':
                     if not init: raise Unsupported('uninitialised pointer')
                     st.vars[d['name']] = self.expr(init[0], st, fn)
+                elif t == 'sptr:cbor_item_t' or (t.startswith('sref:') and t[5:] in self.WIDE):
+                    # local pointer: an alias of what it is initialised with (item parameter / fixed-width view of item->data)
+                    if not init: raise Unsupported('uninitialised pointer')
+                    v = self.expr(init[0], st, fn)
+                    want = t if t == 'sptr:cbor_item_t' else 'wptr:' + t[5:]
+                    if v.t != want: raise Unsupported('pointer initialiser %s for %s' % (v.t, t))
+                    st.vars[d['name']] = v
                 elif init:
                     v = self.conv(self.expr(init[0], st, fn), t, st)
                     nn = fn.gensym(d['name']); st.pending.append((nn, v.lean)); st.vars[d['name']] = V(nn, t)
@@ -836,6 +1084,7 @@ class Translator:
             elif c[0] == 'buf': comps.append(st.bufs[c[1]])
             elif c[0] == 'struct': comps.append(self.struct_lit(c[2], st))
             elif c[0] == 'sref': comps.append(st.vars[c[2]].lean)
+            elif c[0] == 'item': comps.append(self.item_lit(c[2], st))
             elif c[0] == 'events':
                 parts = [ev[7:] if ev.startswith('SPLICE:') else '[%s]' % ev for ev in st.events]
                 comps.append(' ++ '.join(parts) if parts else '[]')
@@ -998,7 +1247,26 @@ class Translator:
 
     # ---------------------------------------------------------------- functions
     def function(self, decl, name=None):
+        """translate one function.  A function with cbor_item_t* parameters is executed twice: the first run (every item returned)
+        only discovers into which items a store is executed on some path — through the parameter itself, an alias, a cast that drops
+        `const`, or a callee that stores; the second run returns the updated record of exactly those.  The qualifier `const` plays no role."""
+        has_item = any(self.is_item_param(p) for p in decl.get('inner', []) if p['kind'] == 'ParmVarDecl')
+        if not has_item: return self.function1(decl, None)
+        n0 = len(self.out)
+        stored = self.function1(decl, None)
+        del self.out[n0:]
+        stored2 = self.function1(decl, stored)
+        if stored2 != stored: raise Unsupported('store discovery is not stable')
+
+    def is_item_param(self, p):
+        try:
+            return ctype(p['type']) == 'sptr:cbor_item_t'
+        except Unsupported:
+            return False
+
+    def function1(self, decl, item_out):
         fn = Fn(decl); name = fn.name
+        fn.stored = set()
         st = St()
         lparams = []; sigparams = []; fn.result = []
         uses_events = False
@@ -1013,6 +1281,15 @@ class Translator:
                 sigparams.append((n, 'ptr'))
                 if not ('const' in q or q == 'cbor_data'):
                     st.bufs[n] = n; bufparam = n; fn.result.append(('buf', n))
+            elif t == 'sptr:cbor_item_t':
+                if self.item_fields is None: raise Unsupported('item model not built')
+                lparams.append('(%s : ItemRec)' % n)
+                key = n + '_s'
+                st.structs[key] = dict({'__type': '__item', '__base': V(n, 'rec')},
+                                       **{flat: V('%s.%s' % (n, flat), ft) for flat, ft, _, _ in self.item_fields})
+                st.vars[n] = V(key, t)
+                sigparams.append((n, 'item'))
+                if item_out is None or key in item_out: fn.result.append(('item', n, key))
             elif t.startswith('sptr:'):
                 sname = t[5:]
                 if sname == 'cbor_callbacks':
@@ -1035,15 +1312,20 @@ class Translator:
             else:
                 raise Unsupported('parameter type ' + t)
         if uses_events: fn.result.append(('events',))
+        n_items = sum(1 for _, t in sigparams if t == 'item')
+        if n_items > 1 or (n_items == 1 and (bufparam is not None or any(t.startswith('sref:') for _, t in sigparams))):
+            # value semantics for the record is only exact when nothing else the function can write through may alias it
+            raise Unsupported('item parameter together with another item / writable pointer parameter (possible aliasing)')
         # labels: a label in the top-level compound owns the statements from there to the end
         top = fn.body.get('inner', [])
         for i, s in enumerate(top):
             if s['kind'] == 'LabelStmt': fn.labels[s['declId']] = top[i:]
         sig_result = []
         for c in fn.result:
-            sig_result.append((c[0], c[1]) if c[0] in ('ret', 'struct', 'sref') else (c[0],))
+            sig_result.append((c[0], c[1]) if c[0] in ('ret', 'struct', 'sref', 'item') else (c[0],))
         self.sigs[name] = {'params': [(n, t) for n, t in sigparams if t != 'skip'], 'bufparam': bufparam,
-                           'result': sig_result, 'skipidx': [i for i, (n, t) in enumerate(sigparams) if t == 'skip']}
+                           'result': sig_result, 'skipidx': [i for i, (n, t) in enumerate(sigparams) if t == 'skip'],
+                           'stored': [c[1] for c in fn.result if c[0] == 'item']}
         def fallthrough(s2):
             if fn.rett != 'unit': s2.obl.append('false')   # control reaches end of non-void function
             return self.leaf(lit(0, fn.rett) if fn.rett in BITS or fn.rett == 'bool' else None, s2, fn)
@@ -1053,12 +1335,14 @@ class Translator:
             if c[0] == 'buf': return 'Array UInt8'
             if c[0] == 'struct': return lean_struct(c[1])
             if c[0] == 'sref': return LEAN_T[c[1]]
+            if c[0] == 'item': return 'ItemRec'
             return 'List Event'
         rty = ' × '.join(rt(c) for c in fn.result) or 'Unit'
         for l in fn.loops: self.out.append(l + '\n')
         P = ' '.join(lparams)
         self.out.append('def %s %s : %s :=\n%s\n' % (name, P, rty, indent(self.render(tree, 'val'), 2)))
         self.out.append('def %s.ok %s : Bool :=\n%s\n' % (name, P, indent(self.render(tree, 'ok'), 2)))
+        return fn.stored
 
     def render(self, t, which):
         if isinstance(t, Let): return 'let %s := %s\n%s' % (t.n, t.e, self.render(t.body, which))
@@ -1098,6 +1382,21 @@ JOBS = [
     ('src/cbor/internal/unicode.c', 'Unicode', ['_cbor_unicode_decode', '_cbor_unicode_codepoint_count']),
     ('src/cbor/serialization.c', 'HeaderSize', ['_cbor_encoded_header_size']),
 ]
+# item accessors: all into one module `Accessors`; (C file, functions) in dependency order (callees first, across files)
+ACC_JOBS = [
+    ('src/cbor/common.c', ['cbor_typeof', 'cbor_isa_uint', 'cbor_isa_negint', 'cbor_isa_bytestring', 'cbor_isa_string', 'cbor_isa_array',
+                           'cbor_isa_map', 'cbor_isa_tag', 'cbor_isa_float_ctrl', 'cbor_is_int', 'cbor_refcount']),
+    ('src/cbor/floats_ctrls.c', ['cbor_float_get_width', 'cbor_ctrl_value', 'cbor_float_ctrl_is_ctrl']),
+    ('src/cbor/common.c', ['cbor_is_bool', 'cbor_is_null', 'cbor_is_undef', 'cbor_is_float']),
+    ('src/cbor/floats_ctrls.c', ['cbor_get_bool', 'cbor_set_ctrl', 'cbor_set_bool']),
+    ('src/cbor/ints.c', ['cbor_int_get_width', 'cbor_get_uint8', 'cbor_get_uint16', 'cbor_get_uint32', 'cbor_get_uint64', 'cbor_get_int',
+                         'cbor_set_uint8', 'cbor_set_uint16', 'cbor_set_uint32', 'cbor_set_uint64', 'cbor_mark_uint', 'cbor_mark_negint']),
+    ('src/cbor/arrays.c', ['cbor_array_is_definite', 'cbor_array_is_indefinite', 'cbor_array_size', 'cbor_array_allocated']),
+    ('src/cbor/maps.c', ['cbor_map_is_definite', 'cbor_map_is_indefinite', 'cbor_map_size', 'cbor_map_allocated']),
+    ('src/cbor/strings.c', ['cbor_string_is_definite', 'cbor_string_is_indefinite', 'cbor_string_length', 'cbor_string_codepoint_count']),
+    ('src/cbor/bytestrings.c', ['cbor_bytestring_is_definite', 'cbor_bytestring_is_indefinite', 'cbor_bytestring_length']),
+    ('src/cbor/tags.c', ['cbor_tag_value']),
+]
 IMPORTS = {'Encoding': ['Encoders'], 'Streaming': ['Loaders', 'Types'], 'Loaders': [], 'Encoders': [],
            'MemoryUtils': [], 'Unicode': ['Types'], 'HeaderSize': []}
 
@@ -1118,7 +1417,10 @@ def generate(repo, outdir, cfgdir):
     cast.write_cfg(repo, cfgdir)
     T = Translator()
     T.externs = {'_cbor_load_half': 'f32'}
-    tus = cast.dump_many(repo, cfgdir, [j[0] for j in JOBS])
+    acc_files = []
+    for f, _ in ACC_JOBS:
+        if f not in acc_files: acc_files.append(f)
+    tus = cast.dump_many(repo, cfgdir, [j[0] for j in JOBS] + acc_files)
     files = {}; report = {'functions': [], 'failed': []}
     fnsets = {}
     for cfile, mod, names in JOBS:
@@ -1173,6 +1475,30 @@ def generate(repo, outdir, cfgdir):
         chunks += T.out
         chunks.append('end Gen\n')
         files[mod + '.lean'] = '\n'.join(chunks)
+    # item accessors (getters / setters / predicates over cbor_item_t)
+    if not cast.little_endian(): raise Unsupported('the fixed-width accesses to item->data are modelled for a little-endian host only')
+    for f in acc_files: fnsets[f] = T.index_tu(tus[f])
+    T.build_item_model()
+    T.out = []
+    chunks = [HEADER % ', '.join(acc_files + ['src/cbor/data.h']), PRELUDE_IMPORTS,
+              'set_option linter.unusedVariables false\nset_option maxRecDepth 4096\nnamespace Gen\n', T.item_decl()]
+    for cfile, names in ACC_JOBS:
+        for n in names:
+            if n not in fnsets[cfile]: raise Unsupported('%s: no definition of %s' % (cfile, n))
+            n0 = len(T.out)
+            try:
+                T.function(fnsets[cfile][n])
+                report['functions'].append(n)
+            except Unsupported as ex:
+                # an accessor outside the subset does not stop the regeneration of everything else (the other 19 properties do not depend
+                # on this module): it becomes a stub of type `Untranslated`, is not callable by later accessors (they become stubs as well),
+                # and `Props.Accessors` + the ACC correspondence of C18 fail on it
+                del T.out[n0:]; T.sigs.pop(n, None)
+                report['failed'].append('%s: %s: %s' % (cfile, n, ex))
+                T.out.append(T.stub(fnsets[cfile][n], str(ex)))
+    chunks += T.out
+    chunks.append('end Gen\n')
+    files['Accessors.lean'] = '\n'.join(chunks)
     return files, report
 
 
